@@ -75,7 +75,8 @@ def shares(pid):
                 "Slash = the next block begins with a 50% slash of the validator's current power through the real staking keeper (distribution hook included), infraction height = current height, so unbonding entries and redelegations are not slashed; at most one slash per validator (environment choice that keeps the exchange rate a power of two)",
                 "delegators are externally owned accounts with the default withdraw address and ample funds (delegateV2 is never refused for lack of funds); contract delegators are covered by C09/C10's caller checks, not here",
                 "unbonding entries and redelegations do not mature between operations (the drain oracle advances time past the unbonding period on a throw-away branch and runs the staking end-blocker); the 7-entries limit is outside the bounds",
-                "observation registers: inv = first broken route of CrisisKeeper.Routes() (all registered staking, distribution, bank, gov, ibc-transfer invariants) evaluated on a branch after EVERY executed transition; drain = every delegator withdraws and fully undelegates everywhere, entries mature, invariants again; pay = for both parties of a transfer: balance delta = rewards owed before - rewards owed after (distribution query); all three are projected into the state and decided by TLC formulas",
+                "observation registers: inv = first broken route of CrisisKeeper.Routes() (all registered staking, distribution, bank, gov, ibc-transfer invariants) evaluated on a branch after EVERY executed transition; drain = every delegator withdraws and fully undelegates everywhere, the unbonding period passes, the staking end-blocker matures the entries, each account receives exactly its unbonding balances, invariants again; pay = for both parties of a transfer: balance delta = rewards owed before - rewards owed after (distribution query); all three are projected into the state and decided by TLC formulas",
+                "inv and drain are memoised on a digest of the staking, distribution, bank, gov, ibc-transfer, mint, slashing and params stores plus block height and time (byte-identical inputs give the same result; account nonces and EVM state are assumed irrelevant to them)",
                 "projection: delegations, validators, unbonding delegations, redelegations through the SDK staking keeper's getters (plain store reads), allowances by raw read of the fx staking store (prefix 0x90), rewards through the distribution querier on a branch",
             ])
     return run
